@@ -1,5 +1,20 @@
 package checks
 
-import "os"
+import (
+	"os"
+
+	"verif/harness/core"
+)
 
 func readFile(p string) ([]byte, error) { return os.ReadFile(p) }
+
+// CurCtx is the context of the running check (set by the CLI); guard brackets
+// a call of the real code for the in-process monitor of core (Enter).
+var CurCtx *core.Ctx
+
+func guard(desc string, input any) func() {
+	if CurCtx == nil {
+		return func() {}
+	}
+	return CurCtx.Enter(desc, input)
+}
